@@ -11,6 +11,9 @@ Clauses
   zero_scale : constant images / constant channels / constant masked region: ValueError when
                refusing is requested, otherwise warning + finite result, zero-scale part only centred.
   compose    : compositions of two features (at most one of them daisy).
+  convention_3d : the convention clause on 3-D images for the features documented for (C, X, ..., Z) arrays.
+  winit      : the window-iterating decorator: mask sampled at the window centres, landmarks moved to the window grid.
+  resample   : a feature that stretches one axis and shrinks the other: mask resized, landmarks rescaled per axis.
 """
 import math
 import warnings
@@ -24,22 +27,38 @@ from vlib import gen, objs, digest
 from vlib.tol import close, describe, maxdiff
 
 import menpo.feature as mf
+from menpo.feature.base import ndfeature as _ndfeature, winitfeature as _winitfeature
 from menpo.image import Image, MaskedImage
 
 PROPERTY = "C18"
 RULE = (
     "features are discovered from the callables menpo.feature exports (decorators excluded) and driven "
     "with Hypothesis-drawn keyword arguments; images are Image / MaskedImage (mask all-true, random, "
-    "blob, single pixel), 1..4 channels, float32/float64, 2-D, axis lengths from the feature's minimum "
-    "to 40, 0..3 landmark groups (PointCloud / PointUndirectedGraph / LabelledPointUndirectedGraph); "
+    "blob, single pixel, empty), 1..4 channels, float32/float64, 2-D (3-D, sides 2..7, in convention_3d), axis "
+    "lengths from the feature's minimum to 40, 0..3 landmark groups (PointCloud / PointUndirectedGraph / "
+    "LabelledPointUndirectedGraph); daisy with rings/radius given directly or through sigmas / ring_radii (also "
+    "contradicting rings/radius: the documented overrides); the two decorator mechanisms no available feature uses "
+    "(window centres; per-axis size change in both directions) are driven through features defined by the check; "
     "pixel content from RandomState(drawn seed) or the identity-coordinate fill, for the normaliser "
-    "clauses shifted/scaled by drawn dyadic offset/gain and with drawn constant channels; a case is "
+    "clauses shifted/scaled by drawn dyadic offset/gain and with drawn constant channels (dyadic k/8 or arbitrary "
+    "decimal values); a case is "
     "non-trivial when the image carries a landmark group and (if masked) a partial mask (convention, "
     "daisy, compose), when the data mean is non-zero (normalisers), when a zero scale really occurs "
     "(zero_scale); distinct = distinct canonical-JSON digest of the case"
 )
 ASSUMPTIONS = [
-    "2-D images only (igo, es and daisy are 2-D features)",
+    "igo, double_igo, es and daisy are 2-D features; gradient, gaussian_filter, no_op, sum_channels and the normalisers "
+    "are documented for (C, X, Y, ..., Z) arrays and are also run on 3-D images (convention_3d)",
+    "gradient reference: per axis, per channel, (a[i+1]-a[i-1])/2 inside and one-sided differences at the ends, "
+    "channels ordered axis-major as documented; tolerance 8*eps(dtype)*max(1,max|x|)",
+    "an empty (all-false) mask is a legal mask for every @ndfeature; plain `normalize` (mask-aware) has no data "
+    "over it and is replaced by normalize_std there",
+    "winitfeature contract (menpo/feature/base.py): wrapped function returns (feature, centres (H, W, 2) integer "
+    "array); image form: mask = input mask sampled at the centres, landmarks = (landmarks - first centre) / step "
+    "per axis (step read off the first two centres, hence grids of at least 2x2 centres); array form: the feature "
+    "array alone. Driven with a feature defined in this module (pixel at each centre) through the public decorator",
+    "daisy ring_radii are increasing integers (they become slice bounds); sigmas and ring_radii given together are "
+    "consistent (len(sigmas) - 1 == len(ring_radii)); effective rings/radius follow the documented overrides",
     "feature(image) is compared with feature(copy of image.pixels): both run the same code, so equality is exact "
     "(np.array_equal, NaN==NaN) and dtypes must agree",
     "normalize (the @imgfeature one) on a MaskedImage normalises the masked pixels only (documented through "
@@ -54,8 +73,14 @@ ASSUMPTIONS = [
     "normaliser tolerances: |got-want| <= 256*eps(dtype)*(max|x|/scale + max|want|*(1+max|x|/max|x-mean|)); "
     "idempotence: second application changes nothing within max(1e-12, 16*eps(dtype)*(1+max|x|/max|x-mean|))*max|out| "
     "(the first pass leaves a mean residual of order eps*max|x|, which the second pass removes)",
-    "zero-scale data are dyadic constants (k/8) so that the mean is exact and the scale is exactly 0.0; "
-    "nearly-constant data are outside the clause",
+    "zero-scale data are constant channels / images / masked regions with dyadic (k/8) or arbitrary decimal values. "
+    "Dyadic constants are centred to exactly 0, so every scale statistic is exactly 0.0. For an arbitrary constant "
+    "the float mean of n copies may be a few ulps off, the centred data are then a rounding-sized constant: a "
+    "statistic that removes the mean (std, var) is still exactly 0 and the channel must be refused / skipped like "
+    "any zero-scale channel; for norm / max-abs / mean-abs the tree treats such a channel as zero scale or as a "
+    "rounding-sized scale depending on value and size, and only what holds for every constant is asserted there "
+    "(ValueError only when refusal was requested, finite output, other channels normalised, input untouched). "
+    "Nearly-constant (not exactly constant) data are outside the clause",
     "optional vlfeat features (dsift, ...) are absent in this environment; discovery lists any exported feature "
     "the module has no driver for under coverage.undriven_features",
 ]
@@ -146,13 +171,14 @@ def ref_normalise(X, kind, mode):
     C, N = X.shape
     centred = np.empty_like(X)
     scales = np.empty(C)
+    # the mean of a constant data set is that constant, exactly (no rounding in the model)
     if mode == "all":
-        m = math.fsum(X.ravel().tolist()) / X.size
+        m = float(X.flat[0]) if np.all(X == X.flat[0]) else math.fsum(X.ravel().tolist()) / X.size
         centred[:] = X - m
         scales[:] = _ref_stat(centred.ravel().tolist(), kind)
     else:
         for c in range(C):
-            m = math.fsum(X[c].tolist()) / N
+            m = float(X[c, 0]) if np.all(X[c] == X[c, 0]) else math.fsum(X[c].tolist()) / N
             centred[c] = X[c] - m
             scales[c] = _ref_stat(centred[c].tolist(), kind)
     expected = centred.copy()
@@ -170,8 +196,8 @@ LM_KINDS = ["PointCloud", "PointUndirectedGraph", "LabelledPointUndirectedGraph"
 
 
 @st.composite
-def s_image(draw, hmin=2, wmin=2, smax=40, masks=("all", "random", "blob", "single"), fills=("random", "coords"),
-            min_groups=0, exact=(None, None)):
+def s_image(draw, hmin=2, wmin=2, smax=40, masks=("all", "random", "blob", "single", "none"), fills=("random", "coords"),
+            min_groups=0, exact=(None, None), ndim=2):
     def side(lo, k=None):
         if k is not None and exact[k] is not None:
             return exact[k]
@@ -180,7 +206,7 @@ def s_image(draw, hmin=2, wmin=2, smax=40, masks=("all", "random", "blob", "sing
 
     c = {
         "cls": draw(st.sampled_from(["Image", "MaskedImage"])),
-        "shape": [side(hmin, 0), side(wmin, 1)],
+        "shape": [side(hmin, 0), side(wmin, 1)] + [side(2) for _ in range(ndim - 2)],
         "seed": draw(st.integers(0, 2**16)),
         "ch": draw(st.integers(1, 4)),
         "dtype": draw(st.sampled_from(["float64", "float32"])),
@@ -193,7 +219,7 @@ def s_image(draw, hmin=2, wmin=2, smax=40, masks=("all", "random", "blob", "sing
     lms = []
     for nm in names:
         n = draw(st.integers(1, 5))
-        fr = draw(st.lists(st.lists(gen.q(0.1, 0.9, 256), min_size=2, max_size=2), min_size=n, max_size=n))
+        fr = draw(st.lists(st.lists(gen.q(0.1, 0.9, 256), min_size=ndim, max_size=ndim), min_size=n, max_size=n))
         # a group's coordinates may be integer-typed (clicked pixel positions, box corners): rounded, stored as int64
         lms.append([nm, {"kind": draw(st.sampled_from(LM_KINDS)), "fr": fr, "int": draw(st.sampled_from([False, False, True]))}])
     c["lms"] = lms
@@ -227,17 +253,20 @@ def s_normaliser(draw, allow_error=True, force_kw=False):
     return {"name": name, "kw": kw}
 
 
+ND_PLAIN = ("gradient", "gaussian_filter", "no_op", "sum_channels")  # documented for (C, X, Y, ..., Z) arrays
+PLAIN_2D = ("gradient", "gaussian_filter", "igo", "double_igo", "es", "no_op", "sum_channels")
+
+
 @st.composite
-def s_plain_feature(draw):
-    """size-preserving, non-normalising features."""
-    name = draw(st.sampled_from([n for n in ("gradient", "gaussian_filter", "igo", "double_igo", "es", "no_op",
-                                             "sum_channels") if n in AVAILABLE]))
+def s_plain_feature(draw, ndim=2):
+    """size-preserving, non-normalising features (igo, double_igo and es are 2-D only)."""
+    name = draw(st.sampled_from([n for n in (PLAIN_2D if ndim == 2 else ND_PLAIN) if n in AVAILABLE]))
     kw = {}
     if name == "gaussian_filter":
         if draw(st.booleans()):
             kw["sigma"] = draw(gen.q(0.25, 4))
         else:
-            kw["sigma"] = [draw(gen.q(0.25, 4)), draw(gen.q(0.25, 4))]
+            kw["sigma"] = [draw(gen.q(0.25, 4)) for _ in range(ndim)]
     elif name == "igo":
         if draw(st.booleans()):
             kw["double_angles"] = draw(st.booleans())
@@ -259,15 +288,38 @@ def s_daisy_feature(draw):
         "orientations": draw(st.integers(2, 8)),
         "normalization": draw(st.sampled_from(["l1", "l2", "daisy", None])),
     }
-    if draw(st.integers(0, 2)) == 0:
-        # explicit smoothing scales, one per ring plus the centre (rings = len(sigmas) - 1, consistent with `rings`)
-        kw["sigmas"] = draw(st.lists(gen.q(0.5, 3.0, 8), min_size=kw["rings"] + 1, max_size=kw["rings"] + 1))
+    how = draw(st.sampled_from(["plain", "plain", "sigmas", "sigmas_override", "ring_radii", "ring_radii", "both"]))
+    n_rings = kw["rings"]
+    if how in ("sigmas_override", "ring_radii", "both"):
+        # documented overrides: rings = len(sigmas) - 1; rings = len(ring_radii) and radius = ring_radii[-1] - whatever
+        # `rings` / `radius` say
+        n_rings = draw(st.integers(1, 3))
+    if how in ("sigmas", "sigmas_override", "both"):
+        # explicit smoothing scales, one per ring plus the centre
+        kw["sigmas"] = draw(st.lists(gen.q(0.5, 3.0, 8), min_size=n_rings + 1, max_size=n_rings + 1))
+    if how in ("ring_radii", "both"):
+        # increasing integer radii, the outermost one between 2 and 6 like `radius`
+        incs = draw(st.lists(st.integers(1, 2), min_size=n_rings, max_size=n_rings))
+        rr = [sum(incs[: i + 1]) for i in range(n_rings)]
+        if rr[-1] < 2:
+            rr[-1] = 2
+        kw["ring_radii"] = rr
     return {"name": "daisy", "kw": kw}
+
+
+def daisy_effective(kw):
+    """(radius, rings) after the documented overrides."""
+    radius, rings = kw["radius"], kw["rings"]
+    if kw.get("ring_radii") is not None:
+        rings, radius = len(kw["ring_radii"]), kw["ring_radii"][-1]
+    if kw.get("sigmas") is not None:
+        rings = len(kw["sigmas"]) - 1
+    return radius, rings
 
 
 def s_daisy_sizes(draw, kw, smax=40, min_out=1):
     """minimum side so that the output has at least min_out (1 or 2) pixels; usually at least 2."""
-    r, s = kw["radius"], kw["step"]
+    r, s = daisy_effective(kw)[0], kw["step"]
     los = [2 * r + s + 1, 2 * r + s + 1, 2 * r + 2 * s + 1]
     if min_out == 1:
         los.append(2 * r + 1)
@@ -281,7 +333,12 @@ def s_daisy_sizes(draw, kw, smax=40, min_out=1):
 
 def build_image(c):
     """Fresh image from the case; landmark manager materialised (see ASSUMPTIONS)."""
-    im = objs.build_image(c)
+    if c.get("mask") == "none":
+        # the empty mask (no pixel selected) is a legal mask: built as all-true, then cleared
+        im = objs.build_image(dict(c, mask="all"))
+        im.mask.pixels[...] = False
+    else:
+        im = objs.build_image(c)
     px = im.pixels
     if "affine" in c:
         off, gain = c["affine"]
@@ -395,8 +452,9 @@ def check_kind(ctx, im, out, tag):
                       lambda: "%s in -> %s out" % (type(im).__name__, type(out).__name__))
 
 
-def check_landmarks(ctx, im, out, factor, tag):
-    """factor None: landmarks must be equal to the input's; else per-axis scale factors."""
+def check_landmarks(ctx, im, out, factor, tag, offset=None):
+    """factor None: landmarks must be equal to the input's; else per-axis scale factors (applied after subtracting
+    the per-axis offset, if one is given)."""
     gin = list(im.landmarks.group_labels)
     gout = list(out.landmarks.group_labels)
     if not ctx.expect(gin == gout, "landmarks.groups." + tag, lambda: "in %r out %r" % (gin, gout)):
@@ -414,9 +472,12 @@ def check_landmarks(ctx, im, out, factor, tag):
             ctx.expect(np.array_equal(a.points, b.points), "landmarks.points_changed." + tag,
                        lambda: "group %r\n%s" % (g, describe(b.points, a.points)))
         else:
-            want = a.points * np.asarray(factor, dtype=float)[None, :]
-            ctx.expect(close(b.points, want, rtol=1e-12), "landmarks.points_not_rescaled." + tag,
-                       lambda: "group %r factor %r\n%s" % (g, list(factor), describe(b.points, want)))
+            want = a.points.astype(np.float64)
+            if offset is not None:
+                want = want - np.asarray(offset, dtype=float)[None, :]
+            want = want * np.asarray(factor, dtype=float)[None, :]
+            ctx.expect(close(b.points, want, rtol=1e-12, atol=1e-12), "landmarks.points_not_rescaled." + tag,
+                       lambda: "group %r factor %r offset %r\n%s" % (g, list(factor), offset, describe(b.points, want)))
 
 
 def check_mask(ctx, im, out, resized, tag):
@@ -441,7 +502,7 @@ def same_values(a, b):
 
 
 def nt_annotations(c):
-    return bool(c["lms"]) and (c["cls"] == "Image" or c.get("mask") in ("random", "blob", "single"))
+    return bool(c["lms"]) and (c["cls"] == "Image" or c.get("mask") in ("random", "blob", "single", "none"))
 
 
 def class_events(ctx, c):
@@ -516,14 +577,39 @@ def check_pixels_agree(ctx, feat, c, im, out, out_arr, tag):
 # 1. convention: size-preserving features
 
 
-def s_convention():
+def unmask_aware(feat, img):
+    """plain `normalize` is mask-aware; over an EMPTY mask it has no data at all (outside the property): the
+    all-pixels normaliser is used instead."""
+    if img["cls"] == "MaskedImage" and img.get("mask") == "none" and feat["name"] == "normalize":
+        feat["name"] = "normalize_std"
+        feat["kw"].pop("scale_func", None)
+
+
+def s_convention(ndim=2, smax=40):
     @st.composite
     def s(draw):
-        feat = draw(st.one_of(s_plain_feature(), s_plain_feature(), s_normaliser()))
-        img = draw(s_image())
+        feat = draw(st.one_of(s_plain_feature(ndim), s_plain_feature(ndim), s_normaliser()))
+        img = draw(s_image(smax=smax, ndim=ndim))
+        unmask_aware(feat, img)
         return {"feat": feat, "img": img}
 
     return s()
+
+
+def ref_gradient(px):
+    """documented layout: for every axis in turn, the derivative of every channel along that axis (second order
+    central differences inside, one-sided first order differences at the two ends)."""
+    C, nd = px.shape[0], px.ndim - 1
+    out = np.empty((C * nd,) + px.shape[1:], dtype=np.result_type(px.dtype, np.float32))
+    for d in range(nd):
+        for c in range(C):
+            a = np.moveaxis(px[c], d, 0)
+            g = np.empty(a.shape, dtype=out.dtype)
+            g[1:-1] = (a[2:] - a[:-2]) / 2.0
+            g[0] = a[1] - a[0]
+            g[-1] = a[-1] - a[-2]
+            out[d * C + c] = np.moveaxis(g, 0, d)
+    return out
 
 
 def c_convention(case, ctx):
@@ -551,6 +637,18 @@ def c_convention(case, ctx):
     if feat["name"] == "no_op":
         # documented: "does nothing but return a copy of the pixels passed in"
         ctx.expect(same_values(out.pixels, im.pixels) and out.pixels.dtype == im.pixels.dtype, "no_op.not_identity", "")
+    if feat["name"] == "gradient":
+        # documented channel layout and difference scheme, any number of image dimensions
+        want = ref_gradient(im.pixels)
+        eps = float(np.finfo(im.pixels.dtype).eps)
+        ctx.expect(out.pixels.shape == want.shape and maxdiff(out.pixels, want) <= 8 * eps * max(1.0, float(np.abs(im.pixels).max())),
+                   "gradient.documented_layout.%dd" % im.n_dims,
+                   lambda: "pixels %r\n%s" % (im.pixels.shape, describe(out.pixels, want)))
+    if feat["name"] == "double_igo":
+        # documented: IGO with double angles - the same feature under another name, both conventions
+        twin = feature_callable({"name": "igo", "kw": {"double_angles": True}}, c["ch"])
+        ctx.expect(same_values(out.pixels, twin(im).pixels) and same_values(out_arr, twin(im.pixels.copy())),
+                   "double_igo.differs_from_igo_double_angles", lambda: describe(out.pixels, twin(im).pixels))
 
 
 # ==============================================================================================
@@ -578,7 +676,7 @@ def s_daisy():
 
 
 def fragile_sides(kw, smax=64):
-    r, s = kw["radius"], kw["step"]
+    r, s = daisy_effective(kw)[0], kw["step"]
     out = []
     for n in range(2 * r + 1, smax + 1):
         o = int(math.ceil((n - 2 * r) / float(s)))
@@ -588,7 +686,7 @@ def fragile_sides(kw, smax=64):
 
 
 def daisy_out_shape(shape, kw):
-    r, s = kw["radius"], kw["step"]
+    r, s = daisy_effective(kw)[0], kw["step"]
     return tuple(int(math.ceil((n - 2 * r) / float(s))) for n in shape)
 
 
@@ -598,8 +696,11 @@ def c_daisy(case, ctx):
     tag = "daisy"
     class_events(ctx, c)
     ctx.event("step=%d" % kw["step"])
-    ctx.event("radius=%d" % kw["radius"])
+    eff_radius, eff_rings = daisy_effective(kw)
+    ctx.event("radius=%d" % eff_radius)
     ctx.event("normalization=%s" % kw["normalization"])
+    ctx.event("rings from %s" % ("ring_radii" if kw.get("ring_radii") else "sigmas" if kw.get("sigmas") else "rings"))
+    ctx.event("rings/radius overridden=%s" % ((eff_radius, eff_rings) != (kw["radius"], kw["rings"])))
     ctx.nontrivial(nt_annotations(c))
     im = build_image(c)
     d0 = digest.digest(im)
@@ -610,7 +711,7 @@ def c_daisy(case, ctx):
         return
     check_pixels_agree(ctx, feat, c, im, out, out_arr, tag)
     want_shape = daisy_out_shape(im.shape, kw)
-    want_ch = (kw["rings"] * kw["histograms"] + 1) * kw["orientations"]
+    want_ch = (eff_rings * kw["histograms"] + 1) * kw["orientations"]
     ctx.event("out_min_side=%s" % ("1" if min(want_shape) == 1 else ">=2"))
     if not ctx.expect(tuple(out.shape) == want_shape and out.n_channels == want_ch, "daisy.documented_shape",
                       lambda: "in %r kw %r: out %r x %d, documented %r x %d"
@@ -744,8 +845,12 @@ def s_zero_scale():
     def s(draw):
         feat = draw(s_normaliser(force_kw=True))
         klass = draw(st.sampled_from(["const_all", "const_some", "const_some", "const_each", "mask_const", "single"]))
-        img = draw(s_image(hmin=2, wmin=2, smax=24, fills=("random",)))
-        const = lambda: draw(st.integers(-32, 32)) / 8.0  # noqa: E731
+        img = draw(s_image(hmin=2, wmin=2, smax=24, fills=("random",), masks=("all", "random", "blob", "single")))
+        # constants: dyadic k/8 (every sum of them is exact) or arbitrary decimals k/1000 such as 0.1, 0.7, 0.2345*..:
+        # a channel of those is just as constant, although its float mean need not reproduce the value exactly
+        const = lambda: draw(st.one_of(st.integers(-32, 32).map(lambda k: k / 8.0),  # noqa: E731
+                                       st.integers(-4000, 4000).map(lambda k: k / 1000.0),
+                                       st.sampled_from([0.1, 0.2345, 0.3, 0.7, -0.1, 1e-3, 255.1, 1.0 / 3.0])))
         if klass == "const_all":
             v = const()
             img["const_channels"] = [[k, v] for k in range(img["ch"])]
@@ -784,14 +889,32 @@ def c_zero_scale(case, ctx):
     ctx.event("via=" + via)
     im = build_image(c)
     X, extract, dom = domain_of(feat, c, im, via)
-    # zero scale <=> the (exactly representable, dyadic) domain data are constant (and a statistic is requested)
+    # zero scale <=> the domain data are constant (and a statistic is requested)
     if mode == "all":
         const_rows = np.array([bool(np.all(X == X.flat[0]))] * X.shape[0])
     else:
         const_rows = np.array([bool(np.all(X[k] == X[k, 0])) for k in range(X.shape[0])])
-    zero_rows = const_rows & (kind != "none")
+    # A constant whose sums are exact (dyadic k/8, |k/8| <= 4) is centred to exactly 0: every statistic of it is 0.
+    # For any other constant v the float mean of n copies may differ from v by a few ulps, so the centred data are a
+    # constant e of a few ulps (or 0): their standard deviation / variance is still exactly 0 (statistics that
+    # subtract the mean), whereas their norm / max-abs / mean-abs is |e|-sized - zero or not depending on v and n.
+    # There the clause asserts only what holds for every constant (see `lenient` below).
+    def exact_const(v, n):
+        return n == 1 or (abs(v) <= 4 and float(v * 8).is_integer())  # a single value is its own mean
+    if mode == "all":
+        exact_rows = np.array([exact_const(float(X.flat[0]), X.size)] * X.shape[0])
+    else:
+        exact_rows = np.array([exact_const(float(X[k, 0]), X.shape[1]) for k in range(X.shape[0])])
+    mean_free = kind in ("std", "var")
+    zero_rows = const_rows & (kind != "none") & (exact_rows | mean_free)
+    lenient_rows = const_rows & (kind != "none") & ~zero_rows
     any_zero = bool(zero_rows.any())
+    lenient = bool(lenient_rows.any())
     ctx.event("zero_scale=%s" % ("all" if zero_rows.all() else "some" if any_zero else "none"))
+    ctx.event("constant kind=%s" % ("none" if not const_rows.any() else "exactly summable" if (exact_rows | ~const_rows).all()
+                                    else "arbitrary"))
+    if lenient:
+        ctx.event("arbitrary constant under norm/maxabs/meanabs: zero or rounding-sized scale")
     ctx.nontrivial(any_zero)
     centred, scales, expected = ref_normalise(X, kind, mode)
     # non-constant rows must have a clearly non-zero scale (random data): keep the clause off near-ties
@@ -824,7 +947,10 @@ def c_zero_scale(case, ctx):
                    lambda: "domain=%s scales=%r: no ValueError" % (dom, scales))
         return
     if raised is not None:
-        ctx.fail("zero_scale.refused_although_%s.%s" % ("skip_requested" if any_zero else "scale_nonzero", tag),
+        if lenient and refuse:
+            ctx.event("arbitrary constant: treated as zero scale (refused)")
+            return
+        ctx.fail("zero_scale.refused_although_%s.%s" % ("skip_requested" if (any_zero or lenient) else "scale_nonzero", tag),
                  "domain=%s scales=%r: %r" % (dom, scales, raised))
         return
     if any_zero:
@@ -841,9 +967,10 @@ def c_zero_scale(case, ctx):
     if any_zero:
         ctx.expect(maxdiff(got[zero_rows], centred[zero_rows]) <= tol, "zero_scale.skipped_part_not_only_centred." + tag,
                    lambda: describe(got[zero_rows], centred[zero_rows]))
-    if (~zero_rows).any():
-        ctx.expect(maxdiff(got[~zero_rows], expected[~zero_rows]) <= tol, "zero_scale.nonzero_part_values." + tag,
-                   lambda: "tol=%.3e\n%s" % (tol, describe(got[~zero_rows], expected[~zero_rows])))
+    asserted = ~zero_rows & ~lenient_rows
+    if asserted.any():
+        ctx.expect(maxdiff(got[asserted], expected[asserted]) <= tol, "zero_scale.nonzero_part_values." + tag,
+                   lambda: "tol=%.3e\n%s" % (tol, describe(got[asserted], expected[asserted])))
 
 
 # ==============================================================================================
@@ -923,18 +1050,141 @@ def c_compose(case, ctx):
         check_landmarks(ctx, im, out, None, tag)
 
 
+# ==============================================================================================
+# 6. the window-iterating decorator (winitfeature) and features that change the two axes differently
+#    (menpo's own windowed features need the optional vlfeat; the decorator contract is exercised with features
+#    defined here, through the public decorators)
+
+
+@_winitfeature
+def _win_sample(pixels, step, off):
+    """window centres off[k], off[k]+step[k], ... along axis k; the feature of a window is the pixel at its centre"""
+    ys = np.arange(off[0], pixels.shape[1], step[0])
+    xs = np.arange(off[1], pixels.shape[2], step[1])
+    centres = np.stack(np.meshgrid(ys, xs, indexing="ij"), axis=-1)
+    return pixels[:, centres[..., 0], centres[..., 1]], centres
+
+
+@_ndfeature
+def _resample(pixels, up, down):
+    """axis k: every pixel repeated up[k] times, then every down[k]-th kept (new length ceil(n*up/down))"""
+    out = pixels
+    for k in (0, 1):
+        out = np.repeat(out, up[k], axis=k + 1)
+        out = out[(slice(None),) * (k + 1) + (slice(None, None, down[k]),)]
+    return np.ascontiguousarray(out).copy()
+
+
+def s_winit():
+    @st.composite
+    def s(draw):
+        step = [draw(st.integers(1, 4)), draw(st.integers(1, 4))]
+        off = [draw(st.integers(0, 3)), draw(st.integers(0, 3))]
+        # at least two window centres per axis (the correction reads the step off the first two centres)
+        img = draw(s_image(hmin=off[0] + step[0] + 1, wmin=off[1] + step[1] + 1, smax=24, masks=("all", "random", "blob", "single", "none")))
+        return {"step": step, "off": off, "img": img}
+
+    return s()
+
+
+def c_winit(case, ctx):
+    c, step, off = case["img"], case["step"], case["off"]
+    tag = "winitfeature"
+    class_events(ctx, c)
+    ctx.event("step %s" % ("equal" if step[0] == step[1] else "unequal"))
+    ctx.event("offset %s" % ("zero" if off == [0, 0] else "equal" if off[0] == off[1] else "unequal"))
+    ctx.nontrivial(nt_annotations(c))
+    im = build_image(c)
+    d0 = digest.digest(im)
+    arr = im.pixels.copy()
+    out = _win_sample(im, step, off)
+    out_arr = _win_sample(arr, step, off)
+    check_unchanged_and_unshared(ctx, im, d0, out, tag)
+    ctx.expect(np.array_equal(arr, im.pixels, equal_nan=True), "input_array_modified." + tag, "")
+    if not ctx.expect(isinstance(out_arr, np.ndarray), "array_in_not_array_out." + tag, lambda: type(out_arr).__name__):
+        return
+    if not check_kind(ctx, im, out, tag):
+        return
+    want = im.pixels[:, off[0]::step[0], off[1]::step[1]]
+    ctx.expect(same_values(out.pixels, out_arr) and same_values(out_arr, want), "image_vs_array.values." + tag,
+               lambda: describe(out.pixels, out_arr))
+    if isinstance(im, MaskedImage):
+        # documented: the mask is sampled at the window centres
+        mw = im.mask.mask[off[0]::step[0], off[1]::step[1]]
+        mo = out.mask.mask
+        ctx.expect(mo.dtype == np.bool_ and mo.shape == mw.shape and np.array_equal(mo, mw), "mask.not_sampled_at_centres." + tag,
+                   lambda: "in %s (%d true), centres %s: out %s (%d true), wanted %d true"
+                   % (im.mask.mask.shape, int(im.mask.mask.sum()), mw.shape, mo.shape, int(mo.sum()), int(mw.sum())))
+        ctx.expect(not np.shares_memory(mo, im.mask.mask), "output_shares_buffer_with_input." + tag, "mask")
+    # documented: landmarks corrected for the window grid: pixel p of the image is pixel (p - first centre) / step
+    check_landmarks(ctx, im, out, [1.0 / step[0], 1.0 / step[1]], tag, offset=off)
+
+
+def s_resample():
+    @st.composite
+    def s(draw):
+        up = [draw(st.integers(1, 3)), draw(st.integers(1, 3))]
+        down = [draw(st.integers(1, 3)), draw(st.integers(1, 3))]
+        img = draw(s_image(smax=24))
+        return {"up": up, "down": down, "img": img}
+
+    return s()
+
+
+def c_resample(case, ctx):
+    c, up, down = case["img"], case["up"], case["down"]
+    tag = "resampling_feature"
+    class_events(ctx, c)
+    im = build_image(c)
+    new = tuple(-(-(n * u) // d) for n, u, d in zip(im.shape, up, down))
+    grow = ["grow" if b > a else "shrink" if b < a else "same" for a, b in zip(im.shape, new)]
+    ctx.event("axes=%s/%s" % tuple(grow))
+    changed = new != tuple(im.shape)
+    ctx.nontrivial(nt_annotations(c) and changed)
+    d0 = digest.digest(im)
+    arr = im.pixels.copy()
+    out = _resample(im, up, down)
+    out_arr = _resample(arr, up, down)
+    check_unchanged_and_unshared(ctx, im, d0, out, tag)
+    if not ctx.expect(isinstance(out_arr, np.ndarray), "array_in_not_array_out." + tag, lambda: type(out_arr).__name__):
+        return
+    if not check_kind(ctx, im, out, tag):
+        return
+    ctx.expect(same_values(out.pixels, out_arr), "image_vs_array.values." + tag, lambda: describe(out.pixels, out_arr))
+    if not ctx.expect(tuple(out.shape) == new, "harness.resample_shape", "%r vs %r" % (out.shape, new)):
+        return
+    if changed:
+        check_mask(ctx, im, out, True, tag)
+        check_landmarks(ctx, im, out, [new[a] / float(im.shape[a]) for a in range(2)], tag)
+    else:
+        check_mask(ctx, im, out, False, tag)
+        check_landmarks(ctx, im, out, None, tag)
+
+
 CLAUSES = [
     Clause("convention", c_convention, s_convention, quick=1400, thorough=40000, nt_floor=0.4,
            rule="size-preserving exported feature x kwargs x image; non-trivial: >=1 landmark group and (Image or partial mask)"),
     Clause("daisy", c_daisy, s_daisy, quick=500, thorough=12000, nt_floor=0.4,
-           rule="daisy step 1..4, radius 2..6, rings 1..3, histograms 1..4, orientations 2..8, 4 normalisations; "
+           rule="daisy step 1..4, radius 2..6, rings 1..3, histograms 1..4, orientations 2..8, 4 normalisations, rings / "
+                "radius also through sigmas and increasing integer ring_radii (documented overrides); "
                 "sides from 2*radius+1 to 40; non-trivial as in convention"),
     Clause("normalisers", c_normalisers, s_normalisers, quick=900, thorough=25000, nt_floor=0.6,
            rule="normaliser x mode x refusal flag x image/array x dyadic offset (|.|>=1/8) and gain; non-trivial: "
                 "non-degenerate domain (values asserted)"),
     Clause("zero_scale", c_zero_scale, s_zero_scale, quick=900, thorough=25000, nt_floor=0.4,
            rule="constant image / some constant channels / each channel its own constant / constant inside the mask / "
-                "single-pixel mask; non-trivial: a zero scale occurs for the drawn mode and statistic"),
+                "single-pixel mask; constants dyadic (k/8) or arbitrary decimals; non-trivial: a zero scale occurs for "
+                "the drawn mode and statistic"),
     Clause("compose", c_compose, s_compose, quick=500, thorough=12000, nt_floor=0.4,
            rule="two features, a third of the cases with one daisy stage; non-trivial as in convention"),
+    Clause("convention_3d", c_convention, lambda: s_convention(ndim=3, smax=7), quick=400, thorough=10000, nt_floor=0.4,
+           rule="the features documented for (C, X, Y, ..., Z) arrays (gradient, gaussian_filter, no_op, sum_channels, the "
+                "normalisers) on 3-D Image / MaskedImage (sides 2..7) with 3-D landmark groups; non-trivial as in convention"),
+    Clause("winit", c_winit, s_winit, quick=300, thorough=8000, nt_floor=0.4,
+           rule="a @winitfeature defined by the check (pixel at each window centre; per-axis step 1..4 and first centre "
+                "0..3, at least 2x2 centres); non-trivial as in convention"),
+    Clause("resample", c_resample, s_resample, quick=300, thorough=8000, nt_floor=0.3,
+           rule="an @ndfeature defined by the check that repeats (x1..3) and subsamples (every 1..3rd) each axis "
+                "independently, so axes may grow, shrink or stay; non-trivial: annotations as in convention and the "
+                "size really changes"),
 ]
